@@ -20,6 +20,11 @@ Streams (model `Wpull.Path` vs the real code in the wpull checkout):
             names, URL paths and Content-Disposition values through the writer session (open_file
             intercepted); containment oracle against the user's option list; correspondence of the
             option glue with the model (`optionsToCfg`, `useDirOf`).
+  namers    2-3 PathNamer objects (+ a writer session each) with different restrictions built first and kept
+            alive in one process, then used alternately (part / ftp get_filename / Content-Disposition rename):
+            each is judged and compared with the model under ITS OWN options.
+  (all)     the root logger level (WARNING / INFO / DEBUG, a rendering handler attached) is a dimension of every
+            stream's configuration; the argv stream runs the real LoggingSetupTask (-d, -v, --warc-file).
   urlcache  oracle only: wpull.url.percent_encode with never-seen encode sets in random order vs its definition
   writer    oracle only: the four real file-writer sessions in a scratch directory
             (existing files / directories in the way, hostile Content-Disposition,
@@ -205,6 +210,32 @@ def exc_name(e):
     return type(e).__name__
 
 
+# ------------------------------------------------------------------ the logging level as a dimension
+import logging as _logging
+
+
+class _SinkHandler(_logging.Handler):
+    """a handler that renders every record (so lazily built log arguments are evaluated) and drops it"""
+
+    def emit(self, record):
+        try:
+            record.getMessage()
+        except Exception:
+            pass
+
+
+_SINK = _SinkHandler()
+LOG_LEVELS = [_logging.WARNING, _logging.WARNING, _logging.INFO, _logging.DEBUG]
+
+
+def set_level(level):
+    """what --debug / --warc-file / an embedding program do to the process: root logger level + a handler"""
+    root = _logging.getLogger()
+    if _SINK not in root.handlers:
+        root.addHandler(_SINK)
+    root.setLevel(level or _logging.WARNING)
+
+
 # ------------------------------------------------------------------ configurations
 OS_TYPES = ['unix', 'windows']
 CASES = [None, 'lower', 'upper']
@@ -219,7 +250,7 @@ def gen_safe_cfg(rng, other=False):
     if other and rng.random() < 0.04:
         os_type = rng.choice(['bsd', '', 'Unix'])
     return {'os_type': os_type, 'no_control': rng.random() < 0.6, 'ascii_only': rng.random() < 0.5,
-            'case': rng.choice(CASES), 'max_length': rng.choice(MAXLENS)}
+            'case': rng.choice(CASES), 'max_length': rng.choice(MAXLENS), 'log_level': rng.choice(LOG_LEVELS)}
 
 
 def gen_namer_cfg(rng, other=False):
@@ -502,6 +533,7 @@ def stream_safe(ctx, real, cases):
     reqs, meta = [], []
     for cfg, name in cases:
         real.hash.log.clear()
+        set_level(cfg.get('log_level'))
         n_prior = len(real.settings)
         real.note_settings(safe_kw(cfg))
         try:
@@ -541,6 +573,7 @@ def stream_safe(ctx, real, cases):
 def real_get_filename(real, cfg, url_info):
     del real.calls[:]
     real.hash.log.clear()
+    set_level(cfg.get('log_level'))
     try:
         namer = make_namer(real, cfg)
         return namer.get_filename(url_info), None
@@ -700,6 +733,7 @@ def stream_cd(ctx, real, cases):
     """cases: (safe cfg, current filename, url, header)"""
     reqs, meta = [], []
     for cfg, cur, url, header in cases:
+        set_level(cfg.get('log_level'))
         ncfg = dict(cfg, root='dl', index='index.html', use_dir=True, cut=None, protocol=False, hostname=True)
         namer = make_namer(real, ncfg)
         session = real.ww.OverwriteFileWriterSession(namer, False, False, False, False, True, False)
@@ -783,6 +817,7 @@ def check_writer(ctx, real, scratch, case):
         return
     opened = []
     prior = real.prior()
+    set_level(cfg.get('log_level'))
     try:
         namer = make_namer(real, ncfg)
         # things already on disk that the anti-clobber helpers react to
@@ -869,6 +904,7 @@ def hist_step(real, call):
     cfg, kind, name = call['cfg'], call['kind'], call['name']
     del real.calls[:]
     real.hash.log.clear()
+    set_level(cfg.get('log_level'))
     try:
         if kind == 'safe':
             real.wp.safe_filename(name, **safe_kw(cfg))
@@ -877,7 +913,7 @@ def hist_step(real, call):
             namer = make_namer(real, ncfg)
             if kind == 'ftp':
                 url = 'ftp://example.com/pub/' + urllib.parse.quote(name, safe='')
-                namer.get_filename(real.wu.URLInfo.parse(url))
+                call['_path'] = namer.get_filename(real.wu.URLInfo.parse(url))
             else:   # 'cd': the writer's Content-Disposition rename
                 session = real.ww.OverwriteFileWriterSession(namer, False, False, False, False, True, False)
                 session._filename = 'dl/example.com/a'
@@ -902,6 +938,13 @@ def stream_history(ctx, real, sequences):
         for i, call in enumerate(seq):
             cfg = call['cfg']
             invs = hist_step(real, call)
+            path = call.pop('_path', None)
+            if path is not None and oracle_applies(cfg) and not failed:
+                p = containment_problem(path, 'dl', cfg)
+                if p:
+                    failed = True
+                    ctx.fail('escapes-prefix', 'history', {'stream': 'history', 'calls': seq[:i + 1]},
+                             'call %d of the sequence (ftp name %r, log level %s): %s' % (i + 1, call['name'], cfg.get('log_level'), p))
             ctx.case(('history', i, tuple(sorted(cfg.items(), key=str)), call['kind'], call['name'],
                       tuple((tuple(sorted(c['cfg'].items(), key=str)), c['kind'], c['name']) for c in seq[:i])),
                      tags=['history:' + call['kind'], 'history:step%d' % min(i, 5)])
@@ -972,6 +1015,101 @@ def history_sequences(rng, n_random):
             seq.append({'cfg': rng.choice(pool), 'kind': rng.choice(['safe', 'safe', 'ftp', 'cd']), 'name': name})
         seqs.append(seq)
     return seqs
+
+
+# ------------------------------------------------------------------ stream: namers (several live namers in one process)
+def stream_namers(ctx, real, scenarios):
+    """scenarios: {'namers': [safe cfg, ...], 'calls': [{'nid', 'kind', 'name'}, ...]}.  From a fresh wpull.path ALL
+    namers (and one writer session per namer) are constructed first, in the given order, and stay alive; then
+    the calls go to them alternately.  Every result is judged against the options of the namer that was asked
+    (oracle) and compared with the pure model under those options (correspondence): what one namer does must
+    not depend on which other namers exist or were built later."""
+    reqs, meta = [], []
+    for sc in scenarios:
+        real.fresh()
+        cfgs = sc['namers']
+        try:
+            namers = [make_namer(real, dict(c, root='dl%d' % i, index='index.html', use_dir=True, cut=None,
+                                            protocol=False, hostname=True)) for i, c in enumerate(cfgs)]
+            sessions = [real.ww.OverwriteFileWriterSession(n, False, False, False, False, True, False) for n in namers]
+        except Exception as e:
+            raise Infra('cannot construct the namers of a scenario: %r' % e)
+        failed = False
+        for i, call in enumerate(sc['calls']):
+            nid, kind, name = call['nid'], call['kind'], call['name']
+            cfg = cfgs[nid]
+            set_level(cfg.get('log_level'))
+            del real.calls[:]
+            real.hash.log.clear()
+            path = None
+            try:
+                if kind == 'part':
+                    namers[nid].safe_filename(name)
+                elif kind == 'ftp':
+                    path = namers[nid].get_filename(real.wu.URLInfo.parse(
+                        'ftp://example.com/pub/' + urllib.parse.quote(name, safe='')))
+                else:
+                    sessions[nid]._filename = 'dl%d/example.com/a' % nid
+                    hname = ''.join(c if ord(c) < 256 and c not in '\r\n' else '?' for c in name)
+                    request, response = make_response(real, 'http://example.com/a', 'attachment; filename=%s' % hname)
+                    sessions[nid]._rename_with_content_disposition(response)
+                    path = sessions[nid]._filename
+            except Exception:
+                pass
+            prefix = {'stream': 'namers', 'namers': cfgs, 'calls': sc['calls'][:i + 1]}
+            ctx.case(('namers', repr(cfgs), i, repr(sc['calls'][:i + 1])), tags=['namers:' + kind, 'namers:n=%d' % len(cfgs)])
+            for inv in [dict(c) for c in real.calls]:
+                check_digest(inv['digest'])
+                tbl, ctxdep = fold_table(cfg['case'], [inv['in']])
+                realtok = ('ok ' + enc(inv['out'])) if inv['exc'] is None else ('exc ' + inv['exc'])
+                reqs.append('path safe %s %s %s %s' % (safe_toks(cfg), tbl, digest_tok(inv['digest']), enc(inv['in'])))
+                meta.append((prefix, realtok, ctxdep))
+                if inv['exc'] is None and inv['in'] != '' and not failed:
+                    p = component_problem(inv['out'], cfg)
+                    if p is None and cfg['os_type'] == 'windows' and any(c in WINCHARS for c in inv['out']):
+                        p = 'Windows-reserved character in %r' % inv['out']
+                    if p:
+                        failed = True
+                        ctx.fail('unsafe-component', 'namers', prefix,
+                                 'call %d: namer #%d (its own restrictions: %s) turns %r into %r: %s; %d namers are alive in '
+                                 'the process' % (i + 1, nid, safe_kw(cfg), inv['in'], inv['out'], p, len(cfgs)))
+            if path and not failed:
+                p = containment_problem(path, 'dl%d' % nid, cfg)
+                if p:
+                    failed = True
+                    ctx.fail('escapes-prefix', 'namers', prefix, 'call %d: namer #%d: %s' % (i + 1, nid, p))
+    real.fresh()
+    for (prefix, realtok, ctxdep), rep in zip(meta, ctx.model.ask(reqs)):
+        if realtok != rep and not ctxdep:
+            ctx.disagree('namers', prefix, rep, realtok)
+    if scenarios:
+        ctx.sample(scenarios[0])
+
+
+def namer_scenarios(rng, n_random):
+    out = []
+    combos = [{'os_type': o, 'no_control': nc, 'ascii_only': ao, 'case': None, 'max_length': None}
+              for o in OS_TYPES for nc in (True, False) for ao in (True, False)]
+    names = ['a\x00b', 'esc\x1b[31m.txt', 'nl\nx/é', 'A.', 'plain']
+    for a in combos:                      # every ordered pair: both built, then both used, in both use orders
+        for b in combos:
+            if a is b:
+                continue
+            for kind in ('part', 'ftp', 'cd'):
+                calls = [{'nid': k, 'kind': kind, 'name': n} for n in names[:3] for k in (0, 1)]
+                out.append({'namers': [a, b], 'calls': calls})
+    for a in combos:
+        for change in ({'case': 'lower'}, {'case': 'upper'}, {'max_length': 8}):
+            b = dict(a, **change)
+            for pair in ([a, b], [b, a]):
+                out.append({'namers': pair, 'calls': [{'nid': k, 'kind': 'part', 'name': 'A\x00/b' + 'c' * 12} for k in (0, 1, 0)]})
+    for _ in range(n_random):
+        cfgs = [gen_safe_cfg(rng) for _ in range(rng.choice([2, 2, 3]))]
+        calls = [{'nid': rng.randrange(len(cfgs)), 'kind': rng.choice(['part', 'ftp', 'cd']),
+                  'name': rng.choice(HIST_NAMES) if rng.random() < 0.7 else gen_name(rng)}
+                 for _ in range(rng.choice([2, 4, 6, 9]))]
+        out.append({'namers': cfgs, 'calls': calls})
+    return out
 
 
 # ------------------------------------------------------------------ stream: urlcache (wpull.url's encoder-map cache)
@@ -1107,8 +1245,14 @@ def check_argv(ctx, real, scratch, case, pending):
     argv = argv_of(case, root_dir)
     key = ('argv', tuple(map(tuple, case['modes'])), tuple(case['opts']), case['prefix'], tuple(case['urls']),
            case.get('existing'), case['header'], case.get('status', 200), case.get('ctype'))
+    set_level(_logging.WARNING)
     try:
         args, writer = build_writer_from_argv(real, argv)
+        with _Quiet():
+            from wpull.application.tasks.log import LoggingSetupTask
+            LoggingSetupTask._setup_logging(args)           # the real task: --debug, --verbose, --warc-file, -o
+        if getattr(args, 'warc_file', None):
+            _logging.getLogger().setLevel(_logging.DEBUG)   # what WARCRecorder._setup_log does in such a run
     except SystemExit:
         ctx.case(key, nontrivial=False, tags=['argv:rejected-by-parser'])
         return
@@ -1125,9 +1269,22 @@ def check_argv(ctx, real, scratch, case, pending):
     req = 'path opts %s %d %d %s %s %s' % (enc(sorted(MODES.index(m) for m in modes)), args.max_filename_length or 0,
                                           len(args.urls), 'T' if args.page_requisites else 'F',
                                           'T' if args.recursive else 'F', dopt)
-    os_real = namer._os_type if namer._os_type in ('unix', 'windows') else 'other'
-    realtok = '%s %s %s %s %d %s' % (os_real, 'T' if namer._no_control else 'F', 'T' if namer._ascii_only else 'F',
-                                     namer._case or 'none', namer._max_filename_length or 0, 'T' if namer._use_dir else 'F')
+    # the namer's effective settings, observed through its behaviour (private attributes may not exist)
+    def probe(text):
+        try:
+            return namer.safe_filename(text)
+        except Exception:
+            return None
+    bs, sl = probe('a\\b'), probe('a/b')
+    os_real = 'windows' if bs is not None and bs.lower() == 'a%5cb' else ('unix' if sl is not None and '/' not in sl else 'other')
+    nc_real = (probe('a\x01b') or '').lower() != 'a\x01b'
+    ao_real = probe('\xe9') != '\xe9' and probe('\xe9') != '\xc9'
+    cs = probe('Aa')
+    case_real = 'lower' if cs == 'aa' else ('upper' if cs == 'AA' else 'none')
+    ml_real = getattr(namer, '_max_filename_length', args.max_filename_length)
+    ud_real = getattr(namer, '_use_dir', None)
+    realtok = '%s %s %s %s %d %s' % (os_real, 'T' if nc_real else 'F', 'T' if ao_real else 'F',
+                                     case_real, ml_real or 0, 'T' if ud_real else 'F')
     pending.append((req, realtok, dict(case)))
     # the session
     raw = case['urls'][0]
@@ -1227,10 +1384,16 @@ def argv_cases(rng, n_random):
                 c = mk([], opts, '<ROOT>', url)
                 c['existing'] = existing
                 cases.append(c)
+    for logopt in (['-d'], ['--debug', '-x'], ['--warc-file=w'], ['-v'], ['-d', '--content-disposition']):
+        for url, hdr in ((ARGV_FTP[4], None), (ARGV_HTTP[0], ARGV_HEADERS[0]), (ARGV_HTTP[1], None)):
+            for existing in (None, 'file'):
+                c = mk([], logopt, '<ROOT>', url, hdr)
+                c['existing'] = existing
+                cases.append(c)
     cases.append(mk([['ascii', 'ascii']], [], '<ROOT>', ARGV_FTP[0]))
     cases.append(mk([['windows'], ['lower']], ['-x'], '<ROOT>', ARGV_FTP[0]))        # the last occurrence replaces the first
     cases.append(mk([['nocontrol'], ['unix', 'upper']], ['-x'], '<ROOT>', ARGV_FTP[4]))
-    pool = ['--content-disposition', '--content-disposition', '-nd', '-x', '-nH', '--cut-dirs=1', '--cut-dirs=3',
+    pool = ['-d', '--debug', '-v', '--warc-file=w', '--content-disposition', '--content-disposition', '-nd', '-x', '-nH', '--cut-dirs=1', '--cut-dirs=3',
             '--protocol-directories', '-E', '-r', '-p', '--max-filename-length=8', '--max-filename-length=40',
             '--default-page=i', '--trust-server-names', '-N', '-nc', '-c', '--no-clobber']
     for _ in range(n_random):
@@ -1368,6 +1531,8 @@ def replay(ctx, case, kind=None, where=None):
         stream_join(ctx, [(case['root'], case['parts'])])
     elif s == 'argv':
         stream_argv(ctx, real, [case])
+    elif s == 'namers':
+        stream_namers(ctx, real, [{'namers': case['namers'], 'calls': case['calls']}])
     elif s == 'history':
         stream_history(ctx, real, [case['calls']])
     elif s == 'urlcache':
@@ -1403,6 +1568,7 @@ def run(ctx):
 
     # order of use inside one process (module-level caches): every sequence starts from a fresh wpull.path
     stream_history(ctx, real, history_sequences(ctx.subrng('history'), ctx.scale(400, 8000)))
+    stream_namers(ctx, real, namer_scenarios(ctx.subrng('namers'), ctx.scale(300, 6000)))
     stream_urlcache(ctx, real, ctx.subrng('urlcache'), ctx.scale(300, 5000))
 
     stream_foldtable(ctx, real, thorough)
